@@ -53,6 +53,6 @@ def handle (tb : Tables) (c impl : T) : String :=
       verdict impl cur alts (impl == specObs)
   | _ => "bad-op"
 
-def flags (tb : Tables) : List (String × Bool) := [("D38", tb.eventVarsEmpty)]
+def flags (tb : Tables) : List (String × Bool) := [("D38", tb.eventVarsEmpty), ("D81", tb.subOrderByMap)]
 
 end Ggql.Driver.C19
